@@ -309,6 +309,13 @@ def main():
     if not pb:
         ab = step_audit(pid, report)
         broken += ["audit: " + a for a in ab]
+        if tier == "thorough":
+            # independent re-check of the compiled property module by the toolchain's kernel re-checker
+            mods = ["Resvg.Props." + pid] + [m for m in spec.get("extra_modules", [])]
+            rc, out, err = sh(["lake", "env", "leanchecker"] + mods, cwd=LEAN, timeout=1800)
+            report["leanchecker"] = {"modules": mods, "rc": rc}
+            if rc != 0:
+                broken.append("leanchecker: " + (out + err)[-400:])
     hooked = step_build_harness(report)
     if hooked is None:
         broken.append("harness: build failed against the current /repo tree: " + report.get("build_error", "")[-300:])
@@ -383,7 +390,7 @@ def main():
             "trusted_base": spec.get("trusted_base", []) + [
                 "Lean 4.33 kernel; axioms used by this property's theorems: " + (", ".join(report.get("axioms", [])) or "none"),
                 "tools/extract_tables.py (translator) and the correspondence harness harness/src (vh) + Driver/*.lean",
-            ],
+            ] + (["leanchecker (independent re-check of the compiled property module): rc=%s" % report["leanchecker"]["rc"]] if "leanchecker" in report else []),
             "theorems": thms,
             "broken_obligations": broken,
             "evaluations": max(1, evaluations),
